@@ -101,7 +101,7 @@ def generate(master, index, tier):
             "validate": rng.choice((0, 1)),
             "parsed": rng.random() < 0.9,
             "labelmsm": rng.choice((1, 2)),
-            "handler": rng.choice((False, False, "method", "function", "collector", "falsy")),
+            "handler": rng.choice((False, False) + W.HANDLER_KINDS),
         },
         "sched": sched,
     }
